@@ -139,8 +139,10 @@ def edit_finding(d):
                 and len(d["inserted"]) == len(d["removed"]) - 1 and d["inserted"].strip(" \t") == "":
             return "C17-F15"
         return None
-    if rule == "bracket-continuation-indent" and shape in ("respace", "remove") and nxt is not None and nxt.type == A._mods().COMMENT \
-            and nxt.quirk and len(d["inserted"]) == len(d["removed"]) - 1 and ctx in ("python", "subproc"):
+    if rule in ("bracket-continuation-indent", "continuation-indent") and shape in ("respace", "remove") and nxt is not None \
+            and nxt.type == A._mods().COMMENT and nxt.quirk and len(d["inserted"]) == len(d["removed"]) - 1 and ctx in ("python", "subproc"):
+        # (the second rule: the comment line follows a backslash-newline; its indent is computed from the start column of
+        # the COMMENT token - one blank too far left - and the token is stripped: the same one column per pass)
         return "C17-F16"
     if rule.endswith(":strip-trailing-blank") and rule.startswith(("in-STRING", "in-FSTRING_MIDDLE")) and ctx in ("token", "fstring"):
         return "C17-F01"
